@@ -1,4 +1,5 @@
 import TvCore.Model.Ops
+import TvCore.Model.Step
 import TvCore.Props.C04Socks
 /-
   Replays one case of a tv-sim trace on the World model (correspondence K).
@@ -32,61 +33,51 @@ def kvNat (toks : List String) (k : String) (d : Nat) : Nat :=
 
 def evLine (e : Env) : String := s!"EV delivered {e.src.toTok} {e.dst.toTok} {e.msg.toTok}"
 
-/-- Host-level op → model. -/
-def hostOp (w : World) (h : Nat) (t : List String) : World × String :=
-  let target : Option Nat := match t with
-    | ["udp_bind", s, _] => some (slotOf s)
-    | ["tcp_bind", s, _] => some (slotOf s)
-    | ["tcp_connect", s, _] => some (slotOf s)
-    | ["tcp_accept", _, s] => some (slotOf s)
-    | _ => none
-  if (match target with | some s => (w.getObj h s).isSome | none => false) then (w, "err slotbusy") else
+/-- tokens of a host-level op → the call with parsed arguments. -/
+def parseHOp (t : List String) : HOp :=
   match t with
-  | ["udp_bind", s, a] => w.opUdpBind h (slotOf s) (parseAddr a)
-  | ["tcp_bind", s, a] => w.opTcpBind h (slotOf s) (parseAddr a)
-  | ["udp_send", s, a, p] => w.opUdpSend h (slotOf s) (parseAddr a) (parseHex p)
-  | ["udp_tryrecv", s, n] => w.opUdpTryRecv h (slotOf s) (n.toNat?.getD 0)
-  | ["udp_recv", s, n] => w.opUdpRecv h (slotOf s) (n.toNat?.getD 0)
-  | ["udp_readable", s] => w.opUdpReadable h (slotOf s)
-  | ["udp_connect", s, a] => w.opUdpConnect h (slotOf s) (parseAddr a)
-  | ["udp_bcast", s, on] => w.opUdpSetBcast h (slotOf s) (on == "1")
-  | ["udp_mloop", s, on] => w.opUdpSetMloop h (slotOf s) (on == "1")
-  | ["udp_join", s, g, i] => w.opUdpJoin h (slotOf s) (parseIp g) (parseIp i)
-  | ["udp_leave", s, g, i] => w.opUdpLeave h (slotOf s) (parseIp g) (parseIp i)
-  | ["tcp_connect", s, a] => w.opTcpConnect h (slotOf s) (parseAddr a)
-  | ["tcp_cpoll", s] => w.connectPoll h (slotOf s)
-  | ["tcp_accept", ls, s] => w.opTcpAccept h (slotOf ls) (slotOf s)
-  | ["tcp_write", s, p] =>
-    -- the harness has `try_write` only on an unsplit stream; on a split-off write half it polls `poll_write`
-    let split := match w.getObj h (slotOf s) with | some (.stream none (some _)) => true | _ => false
-    w.opTcpWrite h (slotOf s) (parseHex p) split
-  | ["tcp_split", s] =>
-    -- into_split / reunite do nothing to the connection; they need both halves in the slot
-    (w, match w.getObj h (slotOf s) with | some (.stream (some _) (some _)) => "ok" | _ => "err badslot")
-  | ["tcp_reunite", s] =>
-    (w, match w.getObj h (slotOf s) with | some (.stream (some _) (some _)) => "ok" | _ => "err badslot")
-  | ["tcp_pwrite", s, p] => w.opTcpWrite h (slotOf s) (parseHex p) true
-  | ["tcp_shutdown", s] => w.opTcpShutdown h (slotOf s)
-  | ["tcp_read", s, n] => w.opTcpRead h (slotOf s) (n.toNat?.getD 0) false
-  | ["tcp_peek", s, n] => w.opTcpRead h (slotOf s) (n.toNat?.getD 0) true
-  | ["drop", s] => w.opDrop h (slotOf s)
-  | ["tcp_dropr", s] => w.opDropRead h (slotOf s)
-  | ["tcp_dropw", s] => w.opDropWrite h (slotOf s)
-  | ["count"] => w.opCount h
-  | ["countof", a] => (w.opCount (hostOf a)).map id id
-  | ["spawn_ticker"] => (w, "ok")
-  | ["select4"] => (w, "?")          -- the pick is tokio's (seeded) choice: not modelled, compared only between twins
-  | ["exit"] => ((w.dropAll h).setHost h (fun hs => { hs with exited := true }), "ok")
-  | ["net_partition", a, b] => (w.ctlPartition (hostOf a) (hostOf b), "ok")
-  | ["net_partition1", a, b] => (w.ctlPartitionOneway (hostOf a) (hostOf b), "ok")
-  | ["net_repair", a, b] => (w.ctlRepair (hostOf a) (hostOf b), "ok")
-  | ["net_repair1", a, b] => (w.ctlRepairOneway (hostOf a) (hostOf b), "ok")
-  | ["net_hold", a, b] => (w.ctlHold (hostOf a) (hostOf b), "ok")
-  | ["net_release", a, b] => (w.ctlRelease (hostOf a) (hostOf b), "ok")
-  | ["sleep", ms] => let (w, _) := w.opSleep h (ms.toNat?.getD 0); (w, "ok")
-  | ["clock"] => w.opClock h
-  | ["lookup", name] => let (ip, w) := w.dnsLookup name; (w, s!"ok {ip}")
-  | _ => (w, "err unknownop")
+  | ["udp_bind", s, a] => .udpBind (slotOf s) (parseAddr a)
+  | ["tcp_bind", s, a] => .tcpBind (slotOf s) (parseAddr a)
+  | ["udp_send", s, a, p] => .udpSend (slotOf s) (parseAddr a) (parseHex p)
+  | ["udp_tryrecv", s, n] => .udpTryRecv (slotOf s) (n.toNat?.getD 0)
+  | ["udp_recv", s, n] => .udpRecv (slotOf s) (n.toNat?.getD 0)
+  | ["udp_readable", s] => .udpReadable (slotOf s)
+  | ["udp_connect", s, a] => .udpConnect (slotOf s) (parseAddr a)
+  | ["udp_bcast", s, on] => .udpBcast (slotOf s) (on == "1")
+  | ["udp_mloop", s, on] => .udpMloop (slotOf s) (on == "1")
+  | ["udp_join", s, g, i] => .udpJoin (slotOf s) (parseIp g) (parseIp i)
+  | ["udp_leave", s, g, i] => .udpLeave (slotOf s) (parseIp g) (parseIp i)
+  | ["tcp_connect", s, a] => .tcpConnect (slotOf s) (parseAddr a)
+  | ["tcp_cpoll", s] => .tcpCPoll (slotOf s)
+  | ["tcp_accept", ls, s] => .tcpAccept (slotOf ls) (slotOf s)
+  | ["tcp_write", s, p] => .tcpWrite (slotOf s) (parseHex p)
+  | ["tcp_split", s] => .tcpSplit (slotOf s)
+  | ["tcp_reunite", s] => .tcpReunite (slotOf s)
+  | ["tcp_pwrite", s, p] => .tcpPWrite (slotOf s) (parseHex p)
+  | ["tcp_shutdown", s] => .tcpShutdown (slotOf s)
+  | ["tcp_read", s, n] => .tcpRead (slotOf s) (n.toNat?.getD 0)
+  | ["tcp_peek", s, n] => .tcpPeek (slotOf s) (n.toNat?.getD 0)
+  | ["drop", s] => .drop (slotOf s)
+  | ["tcp_dropr", s] => .tcpDropR (slotOf s)
+  | ["tcp_dropw", s] => .tcpDropW (slotOf s)
+  | ["count"] => .count
+  | ["countof", a] => .countOf (hostOf a)
+  | ["spawn_ticker"] => .spawnTicker
+  | ["select4"] => .select4
+  | ["exit"] => .exit
+  | ["net_partition", a, b] => .net .partition (hostOf a) (hostOf b)
+  | ["net_partition1", a, b] => .net .partitionOneway (hostOf a) (hostOf b)
+  | ["net_repair", a, b] => .net .repair (hostOf a) (hostOf b)
+  | ["net_repair1", a, b] => .net .repairOneway (hostOf a) (hostOf b)
+  | ["net_hold", a, b] => .net .hold (hostOf a) (hostOf b)
+  | ["net_release", a, b] => .net .release (hostOf a) (hostOf b)
+  | ["sleep", ms] => .sleep (ms.toNat?.getD 0)
+  | ["clock"] => .clock
+  | ["lookup", name] => .lookup name
+  | _ => .unknown
+
+/-- Host-level op → model: the World is `applyStep w (.host h op)`. -/
+def hostOp (w : World) (h : Nat) (t : List String) : World × String := applyHOp w h (parseHOp t)
 
 def norm (s : String) : String := " ".intercalate ((s.splitOn " ").filter (· != ""))
 
@@ -110,6 +101,18 @@ def RState.fail (s : RState) (ln : Nat) (msg : String) : RState :=
 def runningOrder (w : World) : String :=
   ",".intercalate (((List.range w.hosts.length).filter (fun i => (w.host! i).running)).map (fun i => s!"h{i}"))
 
+/-- host-set forms of the link-control calls. -/
+def netCtlOfSet (name : String) : Option NetCtl :=
+  if name == "partition_set" then some .partition
+  else if name == "partition1_set" then some .partitionOneway
+  else if name == "repair_set" then some .repair
+  else if name == "repair1_set" then some .repairOneway
+  else if name == "hold_set" then some .hold
+  else if name == "release_set" then some .release
+  else none
+
+/-- Controller op → model.  Every World is obtained from the previous one by `applyStep`s
+    (`dnsLookup` is called directly where its result is needed: `applyStep w (.dns n) = (w.dnsLookup n).2`). -/
 def ctlOp (s : RState) (t : List String) : RState :=
   let w := s.w
   match t with
@@ -120,7 +123,7 @@ def ctlOp (s : RState) (t : List String) : RState :=
       | none => (w, false)
       | some name => let (ip', w) := w.dnsLookup name; (w, ip' != ip)
     let s := if bad then { s with bad := some (0, "registered host address differs from the DNS model") } else s
-    { s with w := w.register ip (kvGet rest "kind" == some "client"), expectObs := some "ok" }
+    { s with w := applyStep w (.register ip (kvGet rest "kind" == some "client")), expectObs := some "ok" }
   | ["dns", name] => let (ip, w) := w.dnsLookup name; { s with w := w, expectObs := some s!"ok {ip}" }
   | ["dnsip", ip] => { s with expectObs := some s!"ok {ip}" }
   | ["dnsbulk", pfx, n] =>
@@ -135,48 +138,38 @@ def ctlOp (s : RState) (t : List String) : RState :=
     let ips := (w.dns.names.filter (fun x => x.1.startsWith p)).map (fun x => toString (ipOfCounter w.v6 x.2))
     { s with expectObs := some s!"ok {if ips.isEmpty then "-" else ",".intercalate ips}" }
   | "q" :: _ => s
-  | ["step"] => { s with w := w.stepBegin, inStep := true, expectObs := none }
-  | ["partition", a, b] => { s with w := w.ctlPartition (hostOf a) (hostOf b), expectObs := some "ok" }
-  | ["partition1", a, b] => { s with w := w.ctlPartitionOneway (hostOf a) (hostOf b), expectObs := some "ok" }
-  | ["repair", a, b] => { s with w := w.ctlRepair (hostOf a) (hostOf b), expectObs := some "ok" }
-  | ["repair1", a, b] => { s with w := w.ctlRepairOneway (hostOf a) (hostOf b), expectObs := some "ok" }
-  | ["hold", a, b] => { s with w := w.ctlHold (hostOf a) (hostOf b), expectObs := some "ok" }
-  | ["release", a, b] => { s with w := w.ctlRelease (hostOf a) (hostOf b), expectObs := some "ok" }
-  | ["crash", a] => { s with w := w.crash (hostOf a), expectObs := some "ok" }
-  | ["bounce", a] => { s with w := w.bounce (hostOf a), expectObs := some "ok" }
+  | ["step"] => { s with w := applyStep w .stepBegin, inStep := true, expectObs := none }
+  | ["partition", a, b] => { s with w := applyStep w (.link .partition (hostOf a) (hostOf b)), expectObs := some "ok" }
+  | ["partition1", a, b] => { s with w := applyStep w (.link .partitionOneway (hostOf a) (hostOf b)), expectObs := some "ok" }
+  | ["repair", a, b] => { s with w := applyStep w (.link .repair (hostOf a) (hostOf b)), expectObs := some "ok" }
+  | ["repair1", a, b] => { s with w := applyStep w (.link .repairOneway (hostOf a) (hostOf b)), expectObs := some "ok" }
+  | ["hold", a, b] => { s with w := applyStep w (.link .hold (hostOf a) (hostOf b)), expectObs := some "ok" }
+  | ["release", a, b] => { s with w := applyStep w (.link .release (hostOf a) (hostOf b)), expectObs := some "ok" }
+  | ["crash", a] => { s with w := applyStep w (.crash (hostOf a)), expectObs := some "ok" }
+  | ["bounce", a] => { s with w := applyStep w (.bounce (hostOf a)), expectObs := some "ok" }
   | ["crash_set", hs] =>
     -- `Sim::crash(regex)`: the selected hosts in registration order
     let xs := ((hs.splitOn ",").map hostOf).mergeSort (· ≤ ·)
-    { s with w := xs.foldl (fun w x => w.crash x) w, expectObs := some "ok" }
+    { s with w := xs.foldl (fun w x => applyStep w (.crash x)) w, expectObs := some "ok" }
   | ["bounce_set", hs] =>
     let xs := ((hs.splitOn ",").map hostOf).mergeSort (· ≤ ·)
-    { s with w := xs.foldl (fun w x => w.bounce x) w, expectObs := some "ok" }
+    { s with w := xs.foldl (fun w x => applyStep w (.bounce x)) w, expectObs := some "ok" }
   | ["links"] => { s with expectObs := some s!"links {w.linksView}" }
   | ["deliverall", a, b] =>
-    -- `LinkIter::deliver_all`: `SentRef::deliver` on every in-flight message of the link, in queue order
-    let f : Link Env → Link Env × List (Sent Env) := fun l => ((List.range l.sent.length).foldl (fun l i => l.manualDeliver i) l, [])
-    { s with w := w.onLink (hostOf a) (hostOf b) f, expectObs := some "ok" }
+    { s with w := applyStep w (.deliverAll (hostOf a) (hostOf b)), expectObs := some "ok" }
   | ["deliver", a, b, i] =>
-    { s with w := w.ctlDeliver (hostOf a) (hostOf b) (i.toNat?.getD 0), expectObs := none }
+    { s with w := applyStep w (.deliver (hostOf a) (hostOf b) (i.toNat?.getD 0)), expectObs := none }
   | ["mark", _] => { s with expectObs := some "ok" }
   | ["reglate"] =>
     let i := w.hosts.length
     let (ip, w) := w.dnsLookup s!"n{i}"
-    { s with w := w.register ip false, expectObs := some s!"ok {i} ip={ip}" }
+    { s with w := applyStep w (.register ip false), expectObs := some s!"ok {i} ip={ip}" }
   | [name, as, bs] =>
     -- host-set forms (`Sim::partition(regex, regex)` …): every ordered pair of distinct hosts, first set outermost
     let xs := (as.splitOn ",").map hostOf
     let ys := (bs.splitOn ",").map hostOf
-    let f? : Option (World → Nat → Nat → World) :=
-      if name == "partition_set" then some ctlPartition
-      else if name == "partition1_set" then some ctlPartitionOneway
-      else if name == "repair_set" then some ctlRepair
-      else if name == "repair1_set" then some ctlRepairOneway
-      else if name == "hold_set" then some ctlHold
-      else if name == "release_set" then some ctlRelease
-      else none
-    match f? with
-    | some f => { s with w := w.forPairs xs ys f, expectObs := some "ok" }
+    match netCtlOfSet name with
+    | some op => { s with w := applyStep w (.linkPairs op xs ys), expectObs := some "ok" }
     | none => { s with expectObs := none }
   | ["isrunning", a] => { s with expectObs := some s!"ok {(w.host! (hostOf a)).running}" }
   | ["setcurve", _] => { s with expectObs := some "ok" }
@@ -191,8 +184,9 @@ def line (s : RState) (ln : Nat) (l : String) : RState :=
   | "TURN" :: i :: _ =>
     let h := i.toNat?.getD 0
     let s := if s.expectEv.isEmpty then s else s.fail ln s!"expected {s.expectEv.head!} before TURN"
-    let (envs, w) := (s.w.turnBegin h).deliverTo h
-    { s with w := { w with cur := some h }, expectEv := envs.map evLine }
+    -- the World is `applyStep s.w (.turn h)`
+    let (envs, w) := turnStep s.w h
+    { s with w := w, expectEv := envs.map evLine }
   | "EV" :: "delivered" :: _ =>
     match s.expectEv with
     | e :: rest =>
@@ -206,14 +200,10 @@ def line (s : RState) (ln : Nat) (l : String) : RState :=
         match pend.findIdx? (fun e => evLine e == l) with
         | none => s.fail ln "unexpected delivery"
         | some i =>
-          let e := pend.getD i default
-          let w := s.w.setHost h (fun hs => { hs with lo := hs.lo.eraseIdx i })
-          let (rst, w) := w.receive h e
-          if rst then
-            let r : Env := { src := e.dst, dst := e.src, msg := .rst }
-            let (_, w) := w.receive h r
-            { s with w := w, expectEv := [evLine r] }
-          else { s with w := w }
+          -- the World is `applyStep s.w (.loDeliver h i)`
+          match loStep s.w h i with
+          | (w, some r) => { s with w := w, expectEv := [evLine r] }
+          | (w, none) => { s with w := w }
   | "EV" :: _ => s
   | "ORA" :: _ => s
   | "OP" :: "ctl" :: rest =>
@@ -221,6 +211,7 @@ def line (s : RState) (ln : Nat) (l : String) : RState :=
     ctlOp s rest
   | "OP" :: h :: rest =>
     let s := if s.expectEv.isEmpty then s else s.fail ln s!"expected {s.expectEv.head!}"
+    -- the World is `applyStep s.w (.host h (parseHOp rest))`
     let (w, obs) := hostOp s.w (hostOf h) rest
     let obs := match w.panicked with | some _ => "panic" | none => obs
     { s with w := w, expectObs := some obs }
@@ -230,7 +221,7 @@ def line (s : RState) (ln : Nat) (l : String) : RState :=
       let s := if s.expectEv.isEmpty then s else s.fail ln s!"expected {s.expectEv.head!}"
       let want := s!"step finished=true order={runningOrder s.w}"
       let s := if s.w.panicked.isSome then s else if got == want then s else s.fail ln s!"want {want}"
-      { s with w := s.w.stepEnd, inStep := false, expectObs := none, stepNo := s.stepNo + 1 }
+      { s with w := applyStep s.w .stepEnd, inStep := false, expectObs := none, stepNo := s.stepNo + 1 }
     else
       let s := match s.expectObs with
         | some want => if want == "?" || norm want == got then s else s.fail ln s!"want {want}"
